@@ -37,6 +37,7 @@ class Ctx:
         self._sample_every = 1
         self.shrink_cap = 400
         self.fail_calls = 0
+        self.failing_hashes = set()
 
     def count(self, label, n=1):
         self.classes[label] += n
@@ -113,7 +114,7 @@ def evaluate(mod, case, ctx, findings, reported, raise_=True):
         return []
     ctx.evaluations += 1
     if ctx.last_failure is not None:
-        ctx.fail_calls = getattr(ctx, "fail_calls", 0) + 1
+        ctx.fail_calls += 1
     ctx._nt = False
     try:
         items = mod.check(case, ctx)
@@ -137,12 +138,12 @@ def evaluate(mod, case, ctx, findings, reported, raise_=True):
     if bucket in reported:
         ctx.suppressed[bucket] += 1
         return []
-    # bound the shrinking effort: after shrink_cap further calls only the best case so far keeps failing,
-    # which makes the shrinker converge on it
-    ctx.fail_calls = getattr(ctx, "fail_calls", 0)
-    if ctx.fail_calls > ctx.shrink_cap and ctx.last_failure is not None and \
-            case_hash(case) != case_hash(ctx.last_failure[0]):
+    # bound the shrinking effort: after shrink_cap further calls only cases that already failed keep failing
+    # (consistent from Hypothesis' point of view), which makes the shrinker converge on its current best
+    h = case_hash(case)
+    if ctx.fail_calls > ctx.shrink_cap and h not in ctx.failing_hashes:
         return []
+    ctx.failing_hashes.add(h)
     ctx.last_failure = (case, items, bucket)
     if raise_:
         raise Violation(bucket)
@@ -186,6 +187,7 @@ def run_shard(args):
         reported.add(bucket)
         ctx.last_failure = None
         ctx.fail_calls = 0
+        ctx.failing_hashes = set()
 
     # 1. exhaustive core
     matrix_cells = 0
@@ -211,6 +213,7 @@ def run_shard(args):
             @hseed(seed * 1000 + shard)
             @settings(max_examples=n, deadline=None, database=None, derandomize=False,
                       report_multiple_bugs=False, print_blob=False,
+                      phases=[Phase.explicit, Phase.reuse, Phase.generate, Phase.target, Phase.shrink],
                       suppress_health_check=[HealthCheck.too_slow, HealthCheck.data_too_large,
                                              HealthCheck.large_base_example])
             @given(mod.strategy(tier))
